@@ -17,7 +17,7 @@ Req(k, op, c) == [op |-> op, id |-> "i" \o ToString(k), body |-> "b" \o ToString
                   ctype |-> Profiles[k].ctype, accept |-> Profiles[k].accept,
                   cs |-> c, cu |-> Profiles[k].cu]
 
-OpCreds == { <<"opA", "key">>, <<"opB", NoneStr>>, <<"opC", "key">>, <<"opC", "tok">> }
+OpCreds == { <<"opA", "key">>, <<"opB", NoneStr>>, <<"opC", "key">>, <<"opC", "tok">>, <<"opD", "key">> }
 
 Init == /\ \E f \in [1..NReqs -> OpCreds] :
               s = InitState([k \in 1..NReqs |-> Req(k, f[k][1], f[k][2])])
